@@ -1,10 +1,13 @@
 /-
   C11 — RLP is a canonical, total and bounded codec.  Property theorems only (helpers live in Aqv/Lemmas).
   Model: Aqv.Model.Rlp (enc = rlp/encode.go, dec = the strict rules of rlp/decode.go and rlp/raw.go) and
-  Aqv.Model.RlpTyped (decTy/encTy = the typed decoders and writers that makeDecoder/makeWriter select per Go type).
+  Aqv.Model.RlpTyped (decTy/encTy = the typed decoders and writers that makeDecoder/makeWriter select per Go type),
+  Aqv.Model.RlpStream (the Go-shaped `rlp.Stream` state machine: Kind/readKind/readUint/readFull/readByte/willRead/
+  Bytes/List/ListEnd/decodeInterface with the stack of list extents, the input budget and a ghost allocation counter).
 -/
 import Aqv.Lemmas.RlpCanon
 import Aqv.Lemmas.RlpTyped
+import Aqv.Lemmas.RlpStream
 namespace Aqv.Props.C11
 open Aqv Aqv.Rlp
 
@@ -229,5 +232,175 @@ example : decTop (.struct [.raw]) [0xc2, 0xb8, 0x00] = .error (.rlp .canonSize) 
 -- tail: the last field swallows the remaining elements
 example : decTop (.structTail [.uint 8] (.uint 16)) [0xc3, 0x01, 0x02, 0x03] =
     .ok (.tail [.num 1] [.num 2, .num 3]) := by rfl
+
+/-! ## The Go-shaped Stream machine (Aqv.Model.RlpStream) refines the strict decoder -/
+
+/-- `stream_refines` (DecodeBytes): for every byte string, decoding into `interface{}` through the Stream machine
+    with input limit = len (`DecodeBytes`: NewStream(bytes.NewReader(b), len(b)), Decode, then `r.Len() > 0` is
+    ErrMoreThanOneValue) accepts exactly what the strict decoder `dec` accepts, with the same item. -/
+theorem stream_refines (bs : Bytes) (it : Item) :
+    (RlpStream.decodeBytes bs).1 = .ok it ↔ dec bs = .ok it := by
+  obtain ⟨hok, herr⟩ := RlpStream.first_decode bs
+  unfold RlpStream.decodeBytes dec
+  cases hd : decItem (3 * bs.length + 1) bs with
+  | ok p =>
+    obtain ⟨it', rest⟩ := p
+    obtain ⟨s', hdi, _, _, _, _, hinp, _⟩ := hok it' rest hd
+    rw [hdi]
+    simp only [hinp]
+    cases rest with
+    | nil => simp
+    | cons b t => simp
+  | error e =>
+    obtain ⟨e', s', hdi, _, _⟩ := herr e hd
+    rw [hdi]
+    simp
+
+/-- … same accept/reject: the machine rejects exactly the byte strings `dec` rejects. -/
+theorem stream_refines_reject (bs : Bytes) :
+    (∃ e, (RlpStream.decodeBytes bs).1 = .error e) ↔ (∃ e, dec bs = .error e) := by
+  constructor
+  · rintro ⟨e, he⟩
+    cases hd : dec bs with
+    | ok it => rw [(stream_refines bs it).2 hd] at he; simp at he
+    | error e' => exact ⟨e', rfl⟩
+  · rintro ⟨e, he⟩
+    cases hm : (RlpStream.decodeBytes bs).1 with
+    | ok it => rw [(stream_refines bs it).1 hm] at he; simp at he
+    | error e' => exact ⟨e', rfl⟩
+
+/-- … the ErrMoreThanOneValue handling of DecodeBytes: the encoding of a value followed by more input is reported as
+    exactly that error (and the empty input as io.EOF, see the examples below). -/
+theorem stream_more_than_one_value (it : Item) (hs : it.sizeOk = true) (rest : Bytes) (hne : rest ≠ []) :
+    (RlpStream.decodeBytes (enc it ++ rest)).1 = .error .moreThanOneValue := by
+  obtain ⟨hok, _⟩ := RlpStream.first_decode (enc it ++ rest)
+  have hw := weight_le it
+  have hd := decItem_enc it hs (3 * (enc it ++ rest).length + 1) rest (by simp only [List.length_append]; omega)
+  obtain ⟨s', hdi, _, _, _, _, hinp, _⟩ := hok it rest hd
+  unfold RlpStream.decodeBytes
+  rw [hdi]
+  cases rest with
+  | nil => exact absurd rfl hne
+  | cons b t => simp [hinp]
+
+/-- `stream_refines` for the explicit Stream entry point: `s := NewStream(r, len)`, `s.Decode(&v)`, and a second
+    `s.Decode(&w)` that must return io.EOF — accepts exactly what `dec` accepts, with the same item. -/
+theorem stream_refines_stream (bs : Bytes) (it : Item) :
+    (RlpStream.decodeStream bs).1 = .ok it ↔ dec bs = .ok it := by
+  obtain ⟨hok, herr⟩ := RlpStream.first_decode bs
+  unfold RlpStream.decodeStream dec
+  cases hd : decItem (3 * bs.length + 1) bs with
+  | ok p =>
+    obtain ⟨it', rest⟩ := p
+    obtain ⟨s', hdi, hr', hk', hst', _, hinp, hal⟩ := hok it' rest hd
+    have hn : s'.inp.length ≤ bs.length := by rw [hinp]; omega
+    obtain ⟨h2e, h2n⟩ := RlpStream.second_decode bs.length s' hr' hk' hst' hn
+    rw [hdi]
+    cases rest with
+    | nil =>
+      obtain ⟨s'', hd2, _⟩ := h2e hinp
+      simp [hd2]
+    | cons b t =>
+      obtain ⟨r, s'', hd2, hne, _, _⟩ := h2n (by rw [hinp]; simp)
+      simp only [hd2]
+      cases r with
+      | ok x => simp
+      | error e =>
+        have : e ≠ .eof := fun hc => hne (by rw [hc])
+        cases e <;> simp_all
+  | error e =>
+    obtain ⟨e', s', hdi, _, _⟩ := herr e hd
+    rw [hdi]
+    simp
+
+/-- `alloc_bound`: for length-limited input (both entry points set limit = len) the ghost counter — the SUM over the
+    whole run of the sizes of all input-dependent byte buffers the Stream allocates (`make([]byte, size)` in Bytes,
+    the one-byte literal for a single byte) — never exceeds the input length, for accepted and rejected inputs alike.
+    The counter only grows, so its final value bounds every intermediate value and every single allocation.
+    (Why it holds: `Kind` has checked `size` against the rest of the innermost list extent, and the invariant `Ready`
+    keeps that extent within the unread input, so each buffer is paid for by input bytes that are then consumed.)
+    Not counted: the fixed 8-byte `uintbuf` of Reset and the `[]interface{}` element slices of decodeSliceElems. -/
+theorem alloc_bound (bs : Bytes) :
+    (RlpStream.decodeBytes bs).2.alloc ≤ bs.length ∧ (RlpStream.decodeStream bs).2.alloc ≤ bs.length := by
+  obtain ⟨hok, herr⟩ := RlpStream.first_decode bs
+  unfold RlpStream.decodeBytes RlpStream.decodeStream
+  cases hd : decItem (3 * bs.length + 1) bs with
+  | ok p =>
+    obtain ⟨it', rest⟩ := p
+    obtain ⟨s', hdi, hr', hk', hst', _, hinp, hal⟩ := hok it' rest hd
+    have hn : s'.inp.length ≤ bs.length := by rw [hinp]; omega
+    obtain ⟨h2e, h2n⟩ := RlpStream.second_decode bs.length s' hr' hk' hst' hn
+    rw [hdi]
+    constructor
+    · simp only; split <;> (simp only; omega)
+    · cases rest with
+      | nil =>
+        obtain ⟨s'', hd2, hal2⟩ := h2e hinp
+        simp only [hd2, hal2]; omega
+      | cons b t =>
+        obtain ⟨r, s'', hd2, _, _, hal2⟩ := h2n (by rw [hinp]; simp)
+        have hb : s''.alloc ≤ bs.length := by rw [hinp] at hal2; omega
+        simp only [hd2]
+        cases r with
+        | ok x => exact hb
+        | error e => cases e <;> exact hb
+  | error e =>
+    obtain ⟨e', s', hdi, _, hal⟩ := herr e hd
+    rw [hdi]
+    exact ⟨hal, hal⟩
+
+/-- `stream_total`: neither entry point of the machine ever reports the out-of-fuel outcome (the model has no panic
+    outcome at all: every Go panic site of this path — slice bounds in readFull, `make` with an unchecked size — is
+    guarded by `willRead`/`Kind`, which is what `Ready` and `alloc_bound` express). -/
+theorem stream_total (bs : Bytes) :
+    (RlpStream.decodeBytes bs).1 ≠ .error .fuel ∧ (RlpStream.decodeStream bs).1 ≠ .error .fuel := by
+  obtain ⟨hok, herr⟩ := RlpStream.first_decode bs
+  unfold RlpStream.decodeBytes RlpStream.decodeStream
+  cases hd : decItem (3 * bs.length + 1) bs with
+  | ok p =>
+    obtain ⟨it', rest⟩ := p
+    obtain ⟨s', hdi, hr', hk', hst', _, hinp, hal⟩ := hok it' rest hd
+    have hn : s'.inp.length ≤ bs.length := by rw [hinp]; omega
+    obtain ⟨h2e, h2n⟩ := RlpStream.second_decode bs.length s' hr' hk' hst' hn
+    rw [hdi]
+    constructor
+    · simp only; split <;> simp
+    · cases rest with
+      | nil =>
+        obtain ⟨s'', hd2, _⟩ := h2e hinp
+        simp [hd2]
+      | cons b t =>
+        obtain ⟨r, s'', hd2, _, hnf, _⟩ := h2n (by rw [hinp]; simp)
+        simp only [hd2]
+        cases r with
+        | ok x => simp
+        | error e =>
+          have : e ≠ .fuel := fun hc => hnf (by rw [hc])
+          cases e <;> simp_all
+  | error e =>
+    obtain ⟨e', s', hdi, hnf, _⟩ := herr e hd
+    rw [hdi]
+    exact ⟨by simpa using hnf, by simpa using hnf⟩
+
+/-- machine invariant at the end of an accepted decode: the stream is re-armed, no list is open, and the budget is
+    exactly the unread input (`Ready`: limited, `remaining = len(unread)`, innermost extent `pos ≤ size` within budget). -/
+theorem stream_invariant (bs : Bytes) (it : Item) (rest : Bytes)
+    (h : decItem (3 * bs.length + 1) bs = .ok (it, rest)) :
+    ∃ s', RlpStream.decodeInterface (RlpStream.fuelFor bs.length) (RlpStream.newStream bs bs.length) = (.ok it, s') ∧
+      RlpStream.Ready s' ∧ s'.kind = none ∧ s'.stack = [] ∧ s'.inp = rest := by
+  obtain ⟨s', h1, h2, h3, h4, _, h5, _⟩ := (RlpStream.first_decode bs).1 it rest h
+  exact ⟨s', h1, h2, h3, h4, h5⟩
+
+-- non-vacuity / concrete behaviour of the machine
+example : (RlpStream.decodeBytes []).1 = .error .eof := by rfl
+example : (RlpStream.decodeBytes [0xc3, 0x01, 0x02, 0x03]).1 = .ok (.list [.str [1], .str [2], .str [3]]) := by rfl
+example : (RlpStream.decodeBytes [0xc3, 0x01, 0x02, 0x03]).2.alloc = 3 := by rfl
+example : (RlpStream.decodeBytes [0x01, 0x01]).1 = .error .moreThanOneValue := by rfl
+example : (RlpStream.decodeStream [0x01, 0x01]).1 = .error .moreThanOneValue := by rfl
+example : (RlpStream.decodeBytes [0xc2, 0x83, 0x01]).1 = .error .elemTooLarge := by rfl
+example : (RlpStream.decodeBytes [0xb9, 0xff, 0xff, 0x01]).1 = .error .valueTooLarge := by rfl
+example : (RlpStream.decodeBytes [0xb9, 0xff, 0xff, 0x01]).2.alloc = 0 := by rfl
+example : (RlpStream.decodeBytes [0xc1, 0xc1]).1 = .error .elemTooLarge := by rfl
+example : (Item.list [.str [1]]).sizeOk = true ∧ ([0x05] : Bytes) ≠ [] := by decide
 
 end Aqv.Props.C11
